@@ -1058,6 +1058,7 @@ func (c *Conn) doInsert(st *ast.InsertStmt, args []interface{}) (*result, error)
 	autoCounter := tab.autoInc
 	hidden := tab.hidden
 	firstAuto := int64(0)
+	autoKeys := map[string]bool{} // rows inserted by this statement under a generated key
 	// proposed keys within this statement
 	local := map[string]Row{}
 	visible := func(k string) (Row, bool) {
@@ -1192,6 +1193,12 @@ func (c *Conn) doInsert(st *ast.InsertStmt, args []interface{}) (*result, error)
 				}
 				e.row, e.insRow = nil, nil
 				if !RowsEqual(upd, existing) {
+					if autoKeys[dupKey] && strings.Join(uniqueLockNames(tab, upd), ",") != strings.Join(uniqueLockNames(tab, existing), ",") {
+						// a row this very statement inserted under a generated key gets
+						// other unique values from a later VALUES row: afterwards nothing
+						// in the statement identifies it
+						res.notes = append(res.notes, "upsert-new-row-auto-pk-null-unique")
+					}
 					// the updated row must not collide with yet another row
 					if err := c.checkUnique(tab, dupKey, upd, local); err != nil {
 						if de, ok := err.(*dupErr); ok {
@@ -1251,6 +1258,9 @@ func (c *Conn) doInsert(st *ast.InsertStmt, args []interface{}) (*result, error)
 				// generated primary key, NULL in every unique index
 				res.notes = append(res.notes, "upsert-new-row-auto-pk-null-unique")
 			}
+		}
+		if autoAssigned {
+			autoKeys[key] = true
 		}
 		plan = append(plan, pending{key: key, row: row})
 		local[key] = row
